@@ -137,3 +137,18 @@ Proof.
   assert (H0 : 0 < length (owner (mrun true K n cs))) by lia.
   pose proof (Ip 0 H0) as E1. pose proof (Iq 0 H0) as E2. congruence.
 Qed.
+
+(* ---------- repeated addresses ---------- *)
+Lemma bind_list_nodup addrs : forall held, NoDup addrs -> (forall a, In a addrs -> ~ In a held) -> bind_list held addrs = true.
+Proof.
+  induction addrs as [|a r IH]; intros held Hnd Hdis; simpl; [reflexivity|].
+  inversion Hnd as [|? ? Hnot Hnd']; subst.
+  destruct (existsb (Nat.eqb a) held) eqn:E.
+  - exfalso. apply existsb_exists in E as (x & Hx & Ex). apply Nat.eqb_eq in Ex. subst x. exact (Hdis a (or_introl eq_refl) Hx).
+  - apply IH; [exact Hnd'|]. intros b Hb [Hba|Hbh]; [subst; contradiction|]. exact (Hdis b (or_intror Hb) Hbh).
+Qed.
+
+Theorem lone_process_acquires resolved : acquire_alone true resolved = true.
+Proof.
+  unfold acquire_alone. apply bind_list_nodup; [apply NoDup_nodup|]. intros a _ H. exact H.
+Qed.
